@@ -262,9 +262,11 @@ package prefilter
 //@   ensures pos == -1 ==> (forall j :: 0 <= j && j + int(t.masks.fingerprintLen) <= len(haystack) ==> fcm(t, haystack, j, int(t.masks.fingerprintLen), 0) == 0 && fcm(t, haystack, j, int(t.masks.fingerprintLen), 16) == 0)
 //@   ensures pos != -1 ==> 0 <= pos && pos + int(t.masks.fingerprintLen) <= len(haystack) && (fcm(t, haystack, pos, int(t.masks.fingerprintLen), 0) != 0 || fcm(t, haystack, pos, int(t.masks.fingerprintLen), 16) != 0) && (forall j :: 0 <= j && j < pos ==> fcm(t, haystack, j, int(t.masks.fingerprintLen), 0) == 0 && fcm(t, haystack, j, int(t.masks.fingerprintLen), 16) == 0)
 //@   loop 1: invariant 0 <= i && i <= len(haystack) + 1 && fpLen == int(t.masks.fingerprintLen) && 0 <= fpLen && fpLen <= 4
-//@   loop 1: invariant forall j :: 0 <= j && j < i ==> fcm(t, haystack, j, fpLen, 0) == 0 && fcm(t, haystack, j, fpLen, 16) == 0
+//@   loop 1: invariant forall j :: 0 <= j && j < i ==> fcm(t, haystack, j, fpLen, 0) == 0
+//@   loop 1: invariant forall j :: 0 <= j && j < i ==> fcm(t, haystack, j, fpLen, 16) == 0
 //@   loop 1: decreases len(haystack) + 1 - i
 //@   loop 2: invariant 0 <= pos && pos <= fpLen && 0 <= i && i + fpLen <= len(haystack) && fpLen == int(t.masks.fingerprintLen) && fpLen <= 4
 //@   loop 2: invariant candidateMaskLo == fcm(t, haystack, i, pos, 0) && candidateMaskHi == fcm(t, haystack, i, pos, 16)
-//@   loop 2: invariant forall j :: 0 <= j && j < i ==> fcm(t, haystack, j, fpLen, 0) == 0 && fcm(t, haystack, j, fpLen, 16) == 0
+//@   loop 2: invariant forall j :: 0 <= j && j < i ==> fcm(t, haystack, j, fpLen, 0) == 0
+//@   loop 2: invariant forall j :: 0 <= j && j < i ==> fcm(t, haystack, j, fpLen, 16) == 0
 //@   loop 2: decreases fpLen - pos
